@@ -150,6 +150,14 @@ func (en *evalEnv) lookupIdent(name string) (ev, bool) {
 		}
 		fmt.Fprintf(os.Stderr, "point block %d\n", en.point.Block().Index)
 	}
+	if en.point != nil && en.fn.Pkg != nil && !en.shadowed(name) {
+		// a package-level variable is read as it is now, not through the value some earlier statement loaded
+		if m, ok := en.fn.Pkg.Members[name]; ok {
+			if _, isGlobal := m.(*ssa.Global); isGlobal {
+				return en.member(m)
+			}
+		}
+	}
 	if en.point != nil {
 		// the most recent reference to this name before the program point, searching back through
 		// the block and its unique predecessors
@@ -165,7 +173,7 @@ func (en *evalEnv) lookupIdent(name string) (ev, bool) {
 			for i := idx - 1; i >= 0; i-- {
 				if dr, ok := b.Instrs[i].(*ssa.DebugRef); ok && dr.IsAddr {
 					// an address-taken variable: its current contents are read from its cell
-					if id, ok := dr.Expr.(*ast.Ident); ok && id.Name == name && en.hasValue(dr.X) {
+					if id, ok := dr.Expr.(*ast.Ident); ok && id.Name == name && en.hasValue(dr.X) && !isFieldRef(dr) {
 						if pt, ok := dr.X.Type().(*types.Pointer); ok {
 							if _, isArr := arrayElem(pt.Elem()); isArr {
 								if row := e.rowOf(en.st, e.val(en.fr, dr.X)); row != nil {
@@ -1177,6 +1185,35 @@ func (en *evalEnv) hasValue(v ssa.Value) bool {
 	for f := en.fr; f != nil; f = f.parent {
 		if _, ok := f.vals[v]; ok {
 			return true
+		}
+	}
+	return false
+}
+
+// isFieldRef: the debug reference is the selector of a field access (x.f), not a variable named f.
+func isFieldRef(dr *ssa.DebugRef) bool {
+	if v, ok := dr.Object().(*types.Var); ok {
+		return v.IsField()
+	}
+	return false
+}
+
+// shadowed: some local variable or parameter of the function under contract has this name.
+func (en *evalEnv) shadowed(name string) bool {
+	for _, p := range en.fn.Params {
+		if p.Name() == name {
+			return true
+		}
+	}
+	for _, b := range en.fn.Blocks {
+		for _, in := range b.Instrs {
+			if dr, ok := in.(*ssa.DebugRef); ok {
+				if id, ok := dr.Expr.(*ast.Ident); ok && id.Name == name {
+					if v, ok := dr.Object().(*types.Var); ok && v.Pkg() != nil && v.Parent() != v.Pkg().Scope() && !v.IsField() {
+						return true
+					}
+				}
+			}
 		}
 	}
 	return false
